@@ -6,11 +6,12 @@ from .common import *
 from .detectors import SPECS, gen_case
 
 ID = "C17"
-PROPS = ["Prop_C17", "Prop_C17_adwin", "Prop_C17_lfr", "Prop_C17_nndvi", "Prop_C17_kdq", "Prop_C17_ph_refuted"]
-IMPORTS = c01.IMPORTS + "\nFrom MV Require Import Corr_C17."
+PROPS = ["Prop_C17", "Prop_C17_adwin", "Prop_C17_lfr", "Prop_C17_nndvi", "Prop_C17_kdq", "Prop_C17_ph_refuted", "Prop_C17_float"]
+IMPORTS = c01.IMPORTS + "\nFrom MV Require Import Corr_C17 Mono_Float."
 CORR_NAME = "Corr_C17: the models whose monotonicity theorems are proved (DDM, EDDM, STEPD, CUSUM, PageHinkley) and ADWIN / LFR = the implementation, under both settings of every pair"
 TRUSTED = ["Coq 8.16.1 kernel + vm_compute + primitive floats",
-           "MonoLaws (order / monotonicity laws of the arithmetic) are hypotheses of the theorems: proved for the reals (NumLaws.MonoLawsR), assumed for IEEE doubles on non-NaN values",
+           "generic-arithmetic DDM / Page-Hinkley theorems take MonoLaws as hypotheses (proved for the reals, NumLaws.MonoLawsR; every field is refuted for doubles in FloatMono.v); for the bit-exact float model the same results are PROVED (Prop_C17_float.v, via Flocq's IEEE-754 formalisation: monotone rounding) under a computable run condition - finite statistics along the looser run, for Page-Hinkley also no underflow of threshold*mean - that the model evaluates for every generated pair",
+           "axioms of the Flocq-based float theorems: the standard library's real-number axioms (ClassicalDedekindReals.sig_forall_dec, sig_not_dec), Classical_Prop.classic, functional_extensionality_dep, and the FloatAxioms specifications of the primitive float operations",
            "hand-written models + bit-level correspondence for both runs of each pair (DDM, EDDM, STEPD, CUSUM, PageHinkley, ADWIN, ADWINAccuracy, LinearFourRates)",
            "for ADWIN, LFR, kdq-tree detectors, NN-DVI, HDDDM/CDBD the relation is decided on the implementation (ordered pairs of settings, same history, same numpy seed schedule)",
            "harness/c17.py, harness/detectors.py"]
@@ -65,7 +66,44 @@ def gen_cases(ctx):
             i, j = sorted(ctx.rng.sample(range(len(vals)), 2))
             c.update(kind="warn", key=key, loose=vals[j], strict=vals[i])
             cases.append(c)
+    _LAST_CASES[:] = cases
     return cases
+
+
+_LAST_CASES = []
+
+
+def run_condition_term(case):
+    """the boolean run condition of the float theorems of Prop_C17_float.v (finite statistics along the looser run; for
+    Page-Hinkley also: threshold * mean does not underflow to a zero) for this pair, or None"""
+    det, p = case["det"], case["params"]
+    if det == "DDM":
+        errs = "[" + "; ".join(G.boolc(a != b) for a, b in case["data"]) + "]"
+        if case["kind"] == "drift":
+            return f"ddm_run_ok {G.z(p['n_threshold'])} {G.flt(p['warning_scale'])} {G.flt(case['loose'])} {errs}"
+        return f"ddm_warn_run_ok {G.z(p['n_threshold'])} {G.flt(case['loose'])} {G.flt(p['drift_scale'])} {errs}"
+    if det == "PageHinkley" and case["kind"] == "drift" and case["loose"] > 0:
+        return (f"ph_run_ok {G.flt(p['delta'])} {G.flt(case['loose'])} {G.z(p['burn_in'])} "
+                f"{G.boolc(p['direction'] == 'negative')} {G.fltlist(case['data'])}")
+    return None
+
+
+def extra(ctx):
+    """how many of the generated DDM / Page-Hinkley pairs satisfy the run condition under which the float theorems
+    C17f_* apply (evaluated by the model inside Coq); a false condition is not a violation - the theorem is silent then"""
+    from . import coqrun
+    terms, kinds = [], {}
+    for i, c in enumerate(_LAST_CASES):
+        t = run_condition_term(c)
+        if t is not None:
+            terms.append((i, t)); kinds[i] = f"{c['det']}/{c['key']}"
+    if not terms:
+        return {}
+    bad, secs, _ = coqrun.run_cases("C17rc", IMPORTS, terms, SHARD)
+    out = {}
+    for i, k in kinds.items():
+        o = out.setdefault(k, [0, 0]); o[1] += 1; o[0] += i not in set(bad)
+    return {"float_theorem_run_condition_holds": {k: f"{a}/{b} pairs" for k, (a, b) in out.items()}}
 
 
 def variant(case, which):
